@@ -16,6 +16,7 @@ EXTENDS Lifecycle
 
 CONSTANTS Pairs,      \* TRUE: generate concurrent pairs as well
           MaxPairs,   \* at most that many pairs per scenario
+          MaxFaults,  \* at most that many faults per scenario
           AllowCrash, \* FALSE: do not walk into the deployments that kill the core process (Code_AllClaimedCrashes)
           GateChoices \* gates that may be used (subset of AllGates)
 
@@ -82,11 +83,18 @@ G_ControlCall(e, op) == ControlCall(e, op) /\ Start(CallRec("control", e, [op |-
 G_CleanupCall == CleanupCall /\ Start(CallRec("cleanup", "none", <<>>), KProc)
 
 \* a fault: a task of a FaultRole dies on its own, between two calls
-G_Fault(t) == /\ mode = "seq" /\ Quiet /\ tenv[t] # None /\ trole[t] \in FaultRoles /\ ~killSent[t] /\ ~triggered[t]
-              /\ owner[t] # None /\ running[t]
-              /\ TaskGone(t)
-              /\ hist' = Append(hist, [do |-> "fault", env |-> tenv[t], role |-> trole[t]])
-              /\ UNCHANGED <<mode, pa, pb, gate>>
+\* (errs: the environments whose watcher will move them to ERROR: the harness waits for that before it goes on)
+G_Fault(t, kind) ==
+  /\ Cardinality({i \in 1..Len(hist) : hist[i].do = "fault"}) < MaxFaults
+  /\ mode = "seq" /\ Quiet /\ kind \in FaultKinds /\ tenv[t] # None /\ trole[t] \in FaultRoles /\ ~killSent[t] /\ ~triggered[t]
+  /\ owner[t] # None /\ running[t] /\ alive[t] /\ inRoster[t] /\ ~blank[t]
+  /\ CASE kind = "TASK_FAILED" -> trole[t] \in HookTaskNames /\ TaskGone(t)
+       [] kind = "EXECUTOR_LOST" -> FailureEvent(ExecGroup(t))
+       [] kind = "AGENT_LOST" -> FailureEvent(AgentGroup(t))
+       [] OTHER -> MasterUpdate(t)
+  /\ hist' = Append(hist, [do |-> "fault", env |-> tenv[t], role |-> trole[t], kind |-> kind,
+                           errs |-> {e \in Envs : werr'[e] /\ ~werr[e]}])
+  /\ UNCHANGED <<mode, pa, pb, gate>>
 
 (* ---- the steps of the calls ---- *)
 G_CSnap(e) == CSnap(e) /\ Step(CProc(e), "envman.create.snapshot")
@@ -130,10 +138,13 @@ G_CleanupReply == CleanupReply /\ Free(KProc) /\ Same
 G_KillBegin(k) == KillBegin(k) /\ Free(KillerProc(k)) /\ Same
 G_KillRemove(k) == KillRemove(k) /\ Free(KillerProc(k)) /\ Same
 G_KillSelect(k, t, act) == KillSelect(k, t, act) /\ Free(KillerProc(k)) /\ Same
+G_KillSkip(k, t) == KillSkip(k, t) /\ Free(KillerProc(k)) /\ Same
 G_KillSend(k, t) == KillSend(k, t) /\ Step(KillerProc(k), "task.kill.send")
 \* the cluster moves on its own, whoever is parked
 G_TaskRunning(t) == TaskRunning(t) /\ Same
-G_TaskGone(t) == TaskGone(t) /\ (killSent[t] \/ triggered[t] \/ trole[t] \notin FaultRoles) /\ Same
+G_TaskGone(t) == /\ TaskGone(t) /\ Same
+                 /\ killSent[t] \/ triggered[t] \/ (script[tenv[t]] = "launchfail" /\ trole[t] = FailRole(tenv[t]))
+G_AutoError(e) == AutoError(e) /\ Same
 
 Calls ==
   \/ \E e \in Envs :
@@ -141,7 +152,7 @@ Calls ==
        \/ \E fl \in DestroyFlags : G_DestroyCall(e, fl)
        \/ \E op \in Ops : G_ControlCall(e, op)
   \/ G_CleanupCall
-  \/ \E t \in TaskIds : G_Fault(t)
+  \/ \E t \in TaskIds, kind \in FaultKinds : G_Fault(t, kind)
 
 InternalSteps ==
   \/ \E e \in Envs : G_AcqCrash(e)
@@ -165,10 +176,12 @@ InternalSteps ==
        \/ G_XForce(e) \/ G_XReply(e)
   \/ G_CleanupReply
   \/ \E t \in TaskIds : G_TaskRunning(t) \/ G_TaskGone(t)
+  \/ \E e \in Envs : G_AutoError(e)
   \/ \E k \in Killers :
        \/ G_KillBegin(k) \/ G_KillRemove(k)
        \/ OneOf(ksel[k], LAMBDA t : G_KillSelect(k, t, running[t]))
        \/ OneOf(kq[k], LAMBDA t : G_KillSend(k, t))
+       \/ OneOf({t \in kq[k] : ~alive[t]}, LAMBDA t : G_KillSkip(k, t))
 
 Internal == ~crashed /\ InternalSteps
 
